@@ -1,7 +1,7 @@
 def I(name, entry=None, **kw):
     d = dict(name=name, entry=entry or 'h_' + name, unwind=10, timeout_s=300, mem_gb=6, safety_is_property=True, cdefs={'VP_UTF8_LATIN1': 1}, bound=''); d.update(kw); return d
 SM_TUS = ['src/base/QXmppStreamManagement.cpp', 'src/base/QXmppUtils.cpp', 'src/base/QXmppStanza.cpp']
-MODELS = ['qt_core.c', 'qt_list.c', 'qt_dom.c', 'c02_env.c']
+MODELS = ['qt_core.c', 'qt_list.c', 'c02_dom.c', 'c02_env.c']
 SPEC = dict(
     property='C02',
     groups=[
